@@ -241,8 +241,12 @@ int main(void)
 		if (!submitted[esi]) {
 			int ok;
 			buf = rx[esi];
+#if EN_C10 || EN_C11
 			mask_now = (esi < PK) ? avail_mask(dec, &ok) : 0;
 			was_unknown[esi] = (esi < PK) ? !(mask_now >> esi & 1) : 1;
+#else
+			(void)ok;
+#endif
 			submitted[esi] = 1; rx_cnt++; rx_set |= 1u << esi;
 		} else {
 			if (dup_buf[esi] == NULL) { dup_buf[esi] = xmalloc(PLEN); for (j = 0; j < PLEN; j++) dup_buf[esi][j] = rx_copy[esi][j]; }
